@@ -38,6 +38,12 @@ StmtCtx2(d1, d2) == [ck |-> "stmt", stmts |-> <<d1, d2>>]
 
 Emit(w, ev) == [w EXCEPT !.ev = Append(@, ev)]
 
+\* remembers that a graph-node number was rendered as text (format / join / print): such runs are
+\* outside the order-insensitive fragment, because node numbers legitimately differ between modes
+NoteText(fn, args, w) ==
+  IF fn \in {"format", "join", "print"} /\ \E i \in 1..Len(args) : MentionsGn(args[i])
+  THEN [w EXCEPT !.gntext = TRUE] ELSE w
+
 Poll(w, at) ==
   LET np == w.np + 1 IN
   [w EXCEPT !.np = np, !.ev = Append(@, [e |-> "poll", at |-> at]),
@@ -98,11 +104,12 @@ Eval(cx, e, env, w) ==
     [] e.k = "call" ->
          LET r == EvalSeq(cx, e.args, 1, env, w, <<>>) IN
          IF ~r.ok THEN r
-         ELSE LET c == Call(e.fn, r.v, r.w.g, cx.tr) IN
+         ELSE LET c == Call(e.fn, r.v, r.w.g, cx.tr)
+                  rw == NoteText(e.fn, r.v, r.w) IN
               IF c.ok THEN
                  Ok(c.v, IF c.g.n > r.w.g.n
-                         THEN Emit([r.w EXCEPT !.g = c.g], [e |-> "gnode", id |-> r.w.g.n])
-                         ELSE r.w)
+                         THEN Emit([rw EXCEPT !.g = c.g], [e |-> "gnode", id |-> r.w.g.n])
+                         ELSE rw)
               ELSE IF c.kind = "Unsupported" THEN Err("Unsupported", [r.w EXCEPT !.unsup = <<[re |-> "", subj |-> ""]>>])
               ELSE Err(c.kind, r.w)
     [] e.k = "rcap" ->
@@ -201,11 +208,12 @@ ForceNoPoll(cx, lv, w0) ==
     [] lv.lz = "call" ->
          LET r == ForceSeq(cx, lv.args, 1, w0, <<>>) IN
          IF ~r.ok THEN r
-         ELSE LET c == Call(lv.fn, r.v, r.w.g, cx.tr) IN
+         ELSE LET c == Call(lv.fn, r.v, r.w.g, cx.tr)
+                  rw == NoteText(lv.fn, r.v, r.w) IN
               IF c.ok THEN
                  Ok(c.v, IF c.g.n > r.w.g.n
-                         THEN Emit([r.w EXCEPT !.g = c.g], [e |-> "gnode", id |-> r.w.g.n])
-                         ELSE r.w)
+                         THEN Emit([rw EXCEPT !.g = c.g], [e |-> "gnode", id |-> r.w.g.n])
+                         ELSE rw)
               ELSE IF c.kind = "Unsupported" THEN Err("Unsupported", [r.w EXCEPT !.unsup = <<[re |-> "", subj |-> ""]>>])
               ELSE Err(c.kind, r.w)
 
